@@ -229,9 +229,13 @@ def run_store(tape, out, fs, root, estore, kind):
     array_level = (kind == 'array')
     zombies = []
 
-    def open_store():
+    limited = [False]   # the store was opened with n_batches < what the file holds
+
+    def open_store(n_batches=None):
         if array_level:
             return estore.NpyArray(path)
+        if n_batches is not None:
+            return estore.NpyStore(path, bs, n_batches=n_batches)
         return estore.NpyStore(path, bs)
 
     store = open_store()
@@ -247,8 +251,12 @@ def run_store(tape, out, fs, root, estore, kind):
             op = 'flush'
         else:
             ops = ['append', 'append', 'flush', 'overwrite', 'delete', 'clear', 'reopen',
-                   'pickle', 'kill', 'delete', 'append']
+                   'pickle', 'kill', 'delete', 'append', 'reopen_limited']
             op = tape.choice('op', ops)
+            if op == 'reopen_limited' and array_level:
+                op = 'reopen'
+            if limited[0] and op in ('kill', 'clear'):
+                op = 'append'
         full = tape.chance('read_back', 1, 2)
         if array_level:
             total = len(concat(model, f.dtype, f.rshape))
@@ -314,25 +322,44 @@ def run_store(tape, out, fs, root, estore, kind):
             h.end()
             model = []
             last_mut = 'clear'
+        elif op == 'reopen_limited':
+            # NpyStore(file, batch_size, n_batches=k): make only the first k batches available
+            # (documented constructor argument). From here on the file holds MORE than the
+            # logical content by design, so only the `report` clause applies: crash points and
+            # the standard-.npy clause are switched off for the rest of the history.
+            k = tape.int('limit_to', 0, n)
+            new = model[:k]
+            h.begin('reopen-limited', [new])
+            store.close()
+            f.lo = None
+            limited[0] = True
+            h.end()
+            store = open_store(n_batches=k)
+            model = new
+            last_mut = None
+            out.probes['reopen_limited'] += 1
         elif op == 'flush':
             h.begin('flush', [model])
             store.flush()
-            h.end(flushed=True)
-            check_standard_npy(out, path, f, 'after flush (op %d)' % h.j)
+            h.end(flushed=not limited[0])
+            if not limited[0]:
+                check_standard_npy(out, path, f, 'after flush (op %d)' % h.j)
         elif op == 'reopen':
             h.begin('reopen', [model])
             store.close()
-            h.end(flushed=True)
-            check_standard_npy(out, path, f, 'after close (op %d)' % h.j)
+            h.end(flushed=not limited[0])
+            if not limited[0]:
+                check_standard_npy(out, path, f, 'after close (op %d)' % h.j)
             if last_mut == 'clear':
                 out.probes['clear_then_reopen'] += 1
-            store = open_store()
+            store = open_store(n_batches=len(model) if limited[0] else None)
             last_mut = None
         elif op == 'pickle':
             h.begin('pickle', [model])
             blob = pickle.dumps(store)
-            h.end(flushed=True)
-            check_standard_npy(out, path, f, 'after pickling (op %d)' % h.j)
+            h.end(flushed=not limited[0])
+            if not limited[0]:
+                check_standard_npy(out, path, f, 'after pickling (op %d)' % h.j)
             zombies.append(store)       # the old handle stays alive for a while
             store = pickle.loads(blob)
             if tape.chance('drop_old_handle', 1, 2):
@@ -397,8 +424,9 @@ def run_store(tape, out, fs, root, estore, kind):
     # final: clean close, standard file, all crash points
     h.begin('close', [model])
     store.close()
-    h.end(flushed=True)
-    check_standard_npy(out, path, f, 'final close')
+    h.end(flushed=not limited[0])
+    if not limited[0]:
+        check_standard_npy(out, path, f, 'final close')
     h.check_snapshots()
     zombies.clear()
     store = None
